@@ -432,7 +432,19 @@ func (ldiameter) Gen(rng *rand.Rand, tier string) []Case {
 		if d%4 == 3 {
 			msg := dmMsg(rng, 1, deep, 0)
 			addG("deep-nesting", [][]byte{msg}, "dec:"+hx(msg))
+			if d%8 == 7 {
+				addG("deep-nesting", [][]byte{msg}, "rt:"+hx(msg)+",")
+			}
 		}
+	}
+	// (5b) AVP lengths that need the second and the third length octet
+	for _, n := range []int{247, 248, 300, 66000} {
+		if n > 60000 && tier != "thorough" {
+			continue // one AVP above 2^16 octets costs the model about a minute: thorough tier only
+		}
+		msg := dmMsg(rng, 1, append(dmAVP(plain(), 0x40, 0, lnRandBytes(rng, n), -1, true), dmAVP(plain(), 0, 0, []byte{1}, -1, true)...), 0)
+		addG("large-avp", [][]byte{msg}, "dec:"+hx(msg))
+		addG("large-avp", [][]byte{msg}, "rt:"+hx(msg)+",")
 	}
 	// (6) field-built layers
 	for i := 0; i < 120*scale; i++ {
